@@ -358,7 +358,9 @@ class Consumer(object):
         def _handle_shutdown_commit_failure(failure):
             """Handle failure of commit() attempted by shutdown"""
             if failure.check(OperationInProgress):
-                failure.value.deferred.addCallback(_commit_and_stop)
+                # Commit once the in-progress operation completes; if it
+                # fails there is nothing more to wait for: stop and report
+                failure.value.deferred.addCallbacks(_commit_and_stop, _handle_shutdown_commit_failure)
                 return
 
             self._shutdown_d, d = None, self._shutdown_d
